@@ -95,7 +95,7 @@ func sortedFacts(facts []Atom) string {
 		t := short(a.String())
 		// the test of a spliced helper's merged result restates what the threaded guards
 		// of the feasible exits already say
-		if false || seen[t] {
+		if (a.X != nil && a.X.Op == "Phi" && strings.HasPrefix(a.X.S, "_r")) || seen[t] {
 			continue
 		}
 		seen[t] = true
